@@ -352,7 +352,14 @@ def update_merge_statements():
     der = D(S((I(C("s1.tu", "c1")), I(C("s1.tu", "c2"), "c9", True), I(C("s1.tu", "k"))), (G(T("s1", "tu")),)), "d", True)
     derj = D(S((I(C("x", "c1")), I(C("y", "c2")), I(C("x", "k"))), (G(T(None, "ta", "x", True), (J("JOIN", T("s1", "tb", "y", True), on("x", "y")),)),)), "d", True)
     out = []
-    froms = [("single", (G(T(None, "ta")),), "ta", "ta"), ("aliased", (G(T("s1", "ta", "a", True)),), "a", "a"), ("comma2", (G(T(None, "ta")), G(T(None, "tb", "b", False))), "ta", "b"),
+    # names of the inner block that also occur in the outer one (an alias is local to its query block)
+    der_same = D(S((I(C("d", "c2"), "c1", True), I(C("d", "k"))), (G(T("s1", "tu", "d", True)),)), "d", True)
+    der_sib = D(S((I(C("b", "c2"), "c1", True), I(C("b", "k"))), (G(T("s1", "tu", "b", True)),)), "d", True)
+    der_bare = D(S((I(C("tu", "c2"), "c1", True), I(C("tu", "k"))), (G(T(None, "tu")),)), "tu", True)
+    froms = [("derived_inner_alias_equals_own_alias", (G(der_same),), "d", "d"),
+             ("derived_inner_alias_equals_sibling_alias", (G(der_sib), G(T(None, "tb", "b", True))), "d", "b"),
+             ("derived_alias_equals_inner_table_name", (G(der_bare),), "tu", "tu"),
+             ("single", (G(T(None, "ta")),), "ta", "ta"), ("aliased", (G(T("s1", "ta", "a", True)),), "a", "a"), ("comma2", (G(T(None, "ta")), G(T(None, "tb", "b", False))), "ta", "b"),
              ("join", (G(T(None, "ta", "a", True), (J("JOIN", T("s2", "tb"), on("a", "s2.tb")),)),), "a", "s2.tb"), ("derived", (G(der),), "d", "d"),
              ("derived_join", (G(derj, (J("LEFT JOIN", T(None, "tc"), on("d", "tc")),)),), "d", "tc")]
     for fname, frm, q1, q2 in froms:
@@ -362,7 +369,8 @@ def update_merge_statements():
                 sets = (("c1", C(q1, "c1")),) + ((("c2", C(q2, "c2")),) if nset == 2 else ())
                 where = ir.Cmp(C(q1, "k"), "=", C(talias or "s9.tgt", "k"))
                 out.append((ir.Update(tgt, sets, frm, where), ["kind:Update", "update_from:" + fname, f"sets={nset}", "target_alias" if talias else "target_plain"]))
-    srcs = [("table", T(None, "ta"), "ta"), ("aliased", T("s1", "ta", "s", True), "s"), ("derived", der, "d"), ("derived_join", derj, "d")]
+    srcs = [("table", T(None, "ta"), "ta"), ("aliased", T("s1", "ta", "s", True), "s"), ("derived", der, "d"), ("derived_join", derj, "d"),
+            ("derived_inner_alias_equals_own_alias", D(S((I(C("d", "c2"), "c1", True), I(C("d", "c1"), "c2", True), I(C("d", "k"))), (G(T("s1", "tu", "d", True)),)), "d", True), "d")]
     for sname, src, q in srcs:
         for talias in (None, "t"):
             tgt = T("s9", "tgt", talias, True)
